@@ -44,6 +44,22 @@ func routesOf(w *World) map[string]*ssa.Function {
 			}
 			path, ok := constString(c.Common().Args[0])
 			if !ok {
+				// registrations driven by a table of (pattern, handler) rows
+				tbl, pats := tableColumn(c.Common().Args[0])
+				var hv ssa.Value = c.Common().Args[1]
+				if cc, isCall := hv.(*ssa.Call); isCall && len(cc.Common().Args) == 1 {
+					hv = cc.Common().Args[0]
+				}
+				tbl2, hs := tableColumn(hv)
+				if tbl != nil && tbl == tbl2 && len(pats) == len(hs) {
+					for i := range pats {
+						if ps, ok := constString(pats[i]); ok {
+							if h := pickHandler(w, hs[i]); h != nil {
+								out[ps] = h
+							}
+						}
+					}
+				}
 				continue
 			}
 			// handler: look through adapter calls and bound-method closures
@@ -574,4 +590,25 @@ func foldConstArgs(format string, va []ssa.Value) (string, []ssa.Value) {
 		rest = append(rest, va[ai])
 	}
 	return out.String(), rest
+}
+
+// pickHandler: the module function a handler value denotes (a function, or a bound method closure).
+func pickHandler(w *World, v ssa.Value) *ssa.Function {
+	switch x := v.(type) {
+	case *ssa.Function:
+		return x
+	case *ssa.MakeClosure:
+		fnc := x.Fn.(*ssa.Function)
+		if fnc.Synthetic != "" && fnc.Object() != nil {
+			for _, m := range w.modFuncs {
+				if m.Object() == fnc.Object() {
+					return m
+				}
+			}
+		}
+		return fnc
+	case *ssa.ChangeType:
+		return pickHandler(w, x.X)
+	}
+	return nil
 }
